@@ -34,7 +34,7 @@ struct Rep {
 };
 
 inline std::string str(const Pt& p) { return vf::join(p, ","); }
-inline std::string str(const Parts& w) {
+inline std::string pstr(const Parts& w) {
   std::string r;
   for (size_t i = 0; i < w.size(); ++i) {
     if (i) r += "/";
@@ -42,8 +42,8 @@ inline std::string str(const Parts& w) {
   }
   return r;
 }
-inline std::string str(const Rep& r) { return "y=" + str(r.y) + ";w=" + str(r.w); }
-inline std::string str(const std::vector<Pt>& v) {
+inline std::string str(const Rep& r) { return "y=" + str(r.y) + ";w=" + pstr(r.w); }
+inline std::string vstr(const std::vector<Pt>& v) {
   std::string r;
   for (auto& p : v) r += "(" + str(p) + ")";
   return r;
